@@ -119,6 +119,11 @@ CHECKS["C19"] = world("C19", "TestC19", HIST + "profile sorting (3-5 children pe
     "exported getters; same for the applications of every leaf; the pre-sorted asks of every application; both node iterators visit exactly the right nodes once in score order of the current "
     "utilisation; non-trivial = at least 3 queue or application candidates with distinct keys and at least 3 nodes with distinct scores",
     quick=(14, 150))
+CHECKS["C16"] = world("C16", "TestC16", HIST + "profile reload: a fifth of the ops are reloads with a mutation of the current configuration (properties, maxima, guarantees, max applications, ACLs, "
+    "limits, node sorting policy, placement rules, queues removed at any level, removed queues added back, new queues, identical bytes; about a fifth are rejected by validation or only by the "
+    "dry run of the new placement rules), interleaved with scheduling, the queue cleaner and new applications; non-trivial = a reload applied while at least 2 queues hold allocations that "
+    "changes a queue's (own or inherited) properties or removes a non-empty queue from the configuration",
+    quick=(14, 200))
 CHECKS["C09"] = world("C09", "TestC09", HIST + "profile reserve (reservation delay 0, small nodes, 30% required-node asks); non-trivial = a reservation was made and one was removed by "
     "something other than a scheduling cycle (ask/app/node removal, RM reported binding)")
 CHECKS["C10"] = world("C10", "TestC10", HIST + "profile churn-apps; non-trivial = an application that visited at least 4 states")
@@ -177,6 +182,9 @@ META = {
     },
     "C19": _world_meta("comparator validity on every output pair of the queue / application sorters (keys recomputed from exported getters, permutations of the same candidates), "
                        "order and completeness of the pre-sorted asks, and node iterators against scores recomputed from the current utilisation"),
+    "C16": _world_meta("a before/after relation per reload: rejected = observable state identical; accepted = applications, allocations, reservations, nodes and queue totals identical, "
+                       "every configured queue shows the new quota / max applications / properties (reference inheritance model), removed queues drain, draining leaves refuse applications, "
+                       "the cleaner removes only empty draining or dynamic queues"),
     "C09": _world_meta("equality of the application, node and queue views of the reservation relation and exclusivity rules after every step"),
     "C10": _world_meta("the documented application life-cycle table applied to shim messages and state log, plus state/ledger agreement"),
     "C11": _world_meta("the max-applications gate evaluated on the pre-step queue view and counter sanity after every step"),
